@@ -314,14 +314,14 @@ def fresh_replay(prop: str, path: str, hashseed: str = "0") -> Optional[str]:
 
 # --------------------------------------------------------------------------- batch
 def _limit_memory():
-    """Cap the address space of a child (default 8 GB): code under test that runs away with memory -- a wrong
+    """Cap the address space of a child (default 4 GB): code under test that runs away with memory -- a wrong
     shape turned into an allocation of many gigabytes -- then fails with MemoryError inside its own run, where the
     engines see it as the exception it is, instead of waking the kernel's out-of-memory killer (which takes the worker,
     or an innocent neighbour, down with SIGKILL and turns a violation into a harness error)."""
     try:
         import resource
 
-        cap = int(float(os.environ.get("VERIF_MEM_GB", "8")) * (1 << 30))
+        cap = int(float(os.environ.get("VERIF_MEM_GB", "4")) * (1 << 30))
         soft, hard = resource.getrlimit(resource.RLIMIT_AS)
         if hard != resource.RLIM_INFINITY:
             cap = min(cap, hard)
